@@ -52,6 +52,10 @@ func scenC09(r *Run) {
 		f.host(h)
 	}
 	H := fmt.Sprintf("h%d.example", 1+t.Draw(3))
+	f.Big = t.Chance(1, 16)
+	if f.Big {
+		r.S.Probe("c09_big_pages_and_requests")
+	}
 	mode := t.Draw(3) // 0: actor timeline, 1: replies under a post, 2: posts opened directly (authors)
 	r.nontrivial = true
 	var kinds []string
@@ -418,7 +422,11 @@ func describeItem(x any) string {
 func (f *Fedi) noteOn(host string, extra Doc) (string, string, Doc) { return f.note(host, extra) }
 
 func c09Compare(r *Run, f *Fedi, openURL string, l *CLayout, kinds []string, what string) {
-	ref, finite := l.Reference(60)
+	refLimit := 60
+	if f.Big {
+		refLimit = 900
+	}
+	ref, finite := l.Reference(refLimit)
 	r.Describe("scenario", "c09/"+what)
 	r.Describe("layout", l.Describe())
 	r.Describe("entry_kinds", kinds)
@@ -444,12 +452,15 @@ func c09Compare(r *Run, f *Fedi, openURL string, l *CLayout, kinds []string, wha
 	var curOff uint
 	for i := 0; i < 30 && !isNilContainer(cont); i++ {
 		n := uint(1 + t.Draw(6))
+		if f.Big && t.Chance(3, 4) {
+			n = uint([]int{33, 40, 64, 65, 100, 150}[t.Draw(6)] + t.Draw(3))
+		}
 		var items []pub.Tangible
 		var next pub.Container
 		var off uint
 		c, o := cont, curOff
 		task := r.Spawn(fmt.Sprintf("harvest%d", i), func() { items, next, off = c.Harvest(n, o) })
-		r.Drive(func() bool { return task.Done }, hugeHorizon, 40000)
+		r.Drive(func() bool { return task.Done }, hugeHorizon, 400000)
 		if !task.Done {
 			r.Violate("C09", "M-live", "harvest-did-not-return", "listing request did not return")
 			return
